@@ -204,8 +204,31 @@ func main() {
 """
 
 
+# an assembly file in the main package: its path is recorded through -trimpath only (no //line directive)
+ASM_GO = """package main
+
+func asmTwice(x int64) int64
+
+func init() {
+	if asmTwice(21) != 42 {
+		panic("asm")
+	}
+}
+"""
+ASM_S = """#include "textflag.h"
+
+// func asmTwice(x int64) int64
+TEXT ·asmTwice(SB),NOSPLIT,$0-16
+	MOVQ x+0(FP), AX
+	ADDQ AX, AX
+	MOVQ AX, ret+8(FP)
+	RET
+"""
+
+
 def program(which):
-    return {"main.go": MAIN_A if which == "A" else MAIN_B, "lib/lib.go": LIB_GO, "lib/deep/deep.go": DEEP_GO}
+    return {"main.go": MAIN_A if which == "A" else MAIN_B, "lib/lib.go": LIB_GO, "lib/deep/deep.go": DEEP_GO,
+            "twice.go": ASM_GO, "twice_amd64.s": ASM_S}
 
 
 SEED = "-seed=Y2hlY2tjMDNzZWVkMDEyMw"
@@ -249,7 +272,10 @@ def one_build(root: Path, name: str, idx: int, flags, env, prog, pflag, rng_seed
     src = base / ("work" + "x" * idx) / ("nested" if idx % 2 else "") / f"checkout-{idx}"
     write_module(src, program(prog), module=MOD)
     t0 = time.time() - 1
-    sb = Sandbox(base / "sb", template=True, tmpdir=base / f"tmp-{idx}-{rng.randrange(10**6)}")
+    # TMPDIR: somewhere else each time; for the last build of a configuration INSIDE the directory of the main
+    # package (the go command's own -trimpath rewrite of that directory is then a prefix of garble's temp dir)
+    tmpdir = (src / f"tmp-in-src-{rng.randrange(10**6)}") if idx == 2 else base / f"tmp-{idx}-{rng.randrange(10**6)}"
+    sb = Sandbox(base / "sb", template=True, tmpdir=tmpdir)
     if LINKER_TOOL is not None and not (name == "default" and idx == 0):
         # all but one build start from an already patched linker (it is not part of the output;
         # the remaining build patches and builds its own, which covers that path)
